@@ -1,4 +1,4 @@
 SPECIFICATION FairSpec
-CONSTANTS Conns = {"c1", "c2"} MaxOut = 2 MatchByPort = FALSE
+CONSTANTS Conns = {"c1", "c2"} MaxOut = 2 MatchByPort = FALSE Timeouts = 0 OneShotBuffered = TRUE
 PROPERTIES FlushEnds
 CHECK_DEADLOCK FALSE
